@@ -959,4 +959,24 @@ theorem parseDurationTok_spelled {s : PState} {k : Str} {ds : DurSpelling} {d : 
     rw [P.run_bind _ _ s lx s' h]
     simp [h1', hd', StateT.run, pure, StateT.pure, Except.pure]
 
+/-! ## raw whitespace -/
+
+theorem gapText_map_ws (l : Str) : gapText (l.map GapItem.ws) = l := by
+  induction l with
+  | nil => rfl
+  | cons c l ih => rw [List.map_cons, gapText_cons, ih]; rfl
+
+/-- **CR and CRLF.** A non-empty raw run of space, tab, LF, CR (so also CRLF) is delivered by the
+reader as a legal non-empty gap. -/
+theorem foldCR_gap (w : Str) (hne : w ≠ []) (h : ∀ c ∈ w, isRawWs c = true) :
+    ∃ g : Gap, g ≠ [] ∧ gapOK g = true ∧ gapText g = foldCR w := by
+  obtain ⟨hne', hall⟩ := foldCR_rawWs w hne h
+  refine ⟨(foldCR w).map GapItem.ws, ?_, ?_, gapText_map_ws _⟩
+  · intro e; exact hne' (List.map_eq_nil_iff.mp e)
+  · unfold gapOK
+    rw [List.all_map]
+    simp only [List.all_eq_true, Function.comp]
+    intro c hc
+    exact hall c hc
+
 end InfluxQL.Render
